@@ -675,6 +675,13 @@ pub fn close(tier: Tier, depth: usize) -> Driver {
     Driver { name: "close".into(), cfg, prefix: vec![], alphabet, depth, state_cap: tier.pick(400_000, 6_000_000) }
 }
 
+/// `close` without the refusing transport (for the thread-schedule parts, whose case count is budgeted)
+pub fn close_plain(tier: Tier, depth: usize) -> Driver {
+    let mut d = close(tier, depth);
+    d.alphabet.retain(|a| *a != Act::TransportPendingOnce);
+    d
+}
+
 /// Closing while the local transport refuses a datagram now and then (a full UDP send buffer) and the
 /// peer's window is sometimes too small for the next segment: what was refused has not been sent.
 pub fn close_refused(tier: Tier, depth: usize) -> Driver {
